@@ -67,6 +67,24 @@ CHECKS = {
         "Trusted: the 30-line list model; state merging is sound because plugins() exposes the whole registration state (backed by the no-merge run).",
         "DESIGN.md 2/C19",
     ),
+    "C07": (
+        "exhaustive enumeration of all request sequences up to a depth (E4) through the real SciPy plug-in + EnsembleOptimizer + EnsembleEvaluator with a scripted driver in place of scipy's entry points; no state merging",
+        "Bounded exhaustive exploration of the implementation: every sequence (depth 3 quick / 4 thorough, one deeper for the smallest alphabets) of objective / gradient / constraint / Jacobian requests over three points, for all speculative x split combinations, three constraint sets, gradient-based, gradient-free and population (scalar and vectorized) methods; each answer compared with a fresh stack asked only that request, plus evaluator-log rules.",
+        "Trusted: the scripted driver (30 lines) and the fresh-stack differential oracle (the real code asked a single request). Points closer than the separation granted by the quantifier are not generated.",
+        "DESIGN.md 2/C07",
+    ),
+    "C08": (
+        "exhaustive product enumeration of constraint-kind vectors x masks x bound kinds x option forms with a capture driver; feasibility equivalence on an integer lattice",
+        "Bounded exhaustive exploration of the implementation: every kind vector for up to 2 (quick) / 3 (thorough) non-linear x linear constraints for the constraint-capable methods, reduced sets for the other seven methods; what the plug-in hands to scipy is captured and compared with the configured problem on a lattice of exact test points, Jacobians against exact difference quotients, iteration limit and tolerance hand-over.",
+        "Trusted: SciPy itself (only the seam is checked); rows touching a fixed variable may be absent but not wrong.",
+        "DESIGN.md 2/C08",
+    ),
+    "C12": (
+        "explicit-state BFS to closure over the real tracker handler in a real Plan with a reference list model; no-merge bounded-depth run; conformance replay of all model traces through BasicOptimizer",
+        "Explicit-state model checking of the implementation: BFS over synthetic FINISHED_EVALUATION events (objective incl. NaN and ties x feasibility kinds x result kinds x sources, single and paired) for 18 configurations (what x tolerance x transforms), merged on the observable retained result, to closure; all sequences to depth 3/4 without merging; every model trace up to length 3/4 replayed through BasicOptimizer with a scripted SciPy driver.",
+        "Trusted: the 20-line list model; merging is sound because the tracker's only state is the retained result (backed by the no-merge run).",
+        "DESIGN.md 2/C12",
+    ),
 }
 
 NOT_YET = "check not built yet in this session (planned in DESIGN.md section 2); not claimed until its check exists"
